@@ -189,7 +189,8 @@ class Runner:
         sched.run()
         info = {"steps": sched.step, "switches": sched.switches, "hot_points": sched.hot_points,
                 "digest": "%016x" % sched.digest, "switch_digest": "%016x" % sched.switch_digest,
-                "lock_acquire": sched.stats.get("lock_acquire", 0), "lock_blocked": sched.stats.get("lock_blocked", 0)}
+                "lock_acquire": sched.stats.get("lock_acquire", 0), "lock_blocked": sched.stats.get("lock_blocked", 0),
+                "lock_timeout": sched.stats.get("lock_timeout", 0), "sleep": sched.stats.get("sleep", 0)}
         res = {"result": "ok", "info": info, "decisions": [list(d) for d in sched.decisions], "hist": hist}
         try:
             if sched.deadlock is not None:
@@ -491,7 +492,7 @@ def worker(argv):
     runner = Runner()
     warmup(runner)
     agg = {"runs": 0, "skipped": 0, "steps": 0, "switches": 0, "hot_points": 0, "overlaps": 0, "epilogue_recompiles": 0,
-           "lock_acquire": 0, "lock_blocked": 0, "violations": 0, "ops": 0}
+           "lock_acquire": 0, "lock_blocked": 0, "lock_timeout": 0, "sleep": 0, "violations": 0, "ops": 0}
     per_policy = {}
     per_threads = {}
     interleavings = set()
@@ -507,7 +508,7 @@ def worker(argv):
                 continue
             agg["runs"] += 1
             info = res["info"]
-            for k in ("steps", "switches", "hot_points", "lock_acquire", "lock_blocked"):
+            for k in ("steps", "switches", "hot_points", "lock_acquire", "lock_blocked", "lock_timeout", "sleep"):
                 agg[k] += info[k]
             agg["overlaps"] += info.get("overlaps", 0)
             agg["epilogue_recompiles"] += info.get("epilogue", 0)
@@ -624,6 +625,8 @@ def master(tier, seed):
         "quiescent_epilogue_recompiles": agg.get("epilogue_recompiles", 0),
         "sim_lock_acquires": agg.get("lock_acquire", 0),
         "sim_lock_blocked": agg.get("lock_blocked", 0),
+        "sim_lock_timeouts_fired": agg.get("lock_timeout", 0),
+        "sim_sleep_yields": agg.get("sleep", 0),
         "skipped_scenarios": agg.get("skipped", 0),
         "runs_per_policy": per_policy,
         "runs_per_thread_count": per_threads,
